@@ -14,9 +14,11 @@ func init() {
 			"(A1) column table: for every field of Agency, Route, Stop, Transfer, Service, ScheduledTrip, ScheduledStopTime, ShapePoint/Shape, Frequency the CSV column(s) that can reach it (backward provenance through locals, phis, id maps and carrier structs) equal the GTFS reference, text columns are stored verbatim, typed columns pass through exactly their decoder; references are resolved by id lookup into the result's own collection; " +
 			"(A2) every enum decoder's extracted decision table maps each GTFS digit to the constant the reference names; (TIME) H:MM:SS is 3600h+60m+s seconds, linear, without modulo, accumulated in base 10; dates use layout 20060102 in the location handed down, which is the first agency's zone or UTC, and come from nowhere else (no time.Date / Unix / AddDate construction in the static parser); " +
 			"(A5) the file table binds each supported file name to its parse function with GTFS's optionality, phases respect def-use order, members are looked up by exact name from a map of all archive members; " +
-			"(A4/CSV) the archive member is read only by the csv reader (no raw Read on it before or beside), the CSV reader is created only over the BOM-aware transformer and only ReuseRecord is configured, header names map to their position in the first record and cells are indexed only through that map (column order, extra columns, BOM, quoting, CRLF are the library's business); (ROW) no row appends more than one entity; (ROWSTATE) every field of csv.File's per-row object is renewed on every path of NextRow that announces a row, so nothing recorded about one row decides the fate of the next; (G13) reference fields point at entities of the result (the rules of C03); the stop-time capacity pre-allocation never discards collected stop times; (G7) no package-level state. " +
+			"(A4/CSV) the archive member is read only by the csv reader (no raw Read on it before or beside), the CSV reader is created only over the BOM-aware transformer and only ReuseRecord is configured, header names map to their position in the first record and cells are indexed only through that map (column order, extra columns, BOM, quoting, CRLF are the library's business); (NUM) every strconv.ParseInt/ParseUint of the static parser is called with the constant base 10 and every ParseFloat with bit size 64; (SVC) the calendar_dates rules of C11; (DEF) the optional-column readers return the cell of an existing column at any position; (SCAN) no row loop is left by a break; (ROW) no row appends more than one entity; (ROWSTATE) every field of csv.File's per-row object is renewed on every path of NextRow that announces a row, so nothing recorded about one row decides the fate of the next; (G13) reference fields point at entities of the result (the rules of C03); the stop-time capacity pre-allocation never discards collected stop times; (G7) no package-level state. " +
 			"Not decided: numerical correctness of strconv and the digit loop, zip/csv decoding themselves.",
 		Rules: []Rule{
+			{Name: "SVC", Doc: "calendar_dates: range extension guards, exception table, write-back (the rules of C11): Service fields carry what the rows say", MinInstances: 5, Run: runServiceRules},
+			{Name: "NUM", Doc: "numbers in cells are read as decimal (constant base 10) and with float64 precision", MinInstances: 2, Run: func(c *Ctx) { runNumericDecoders(c, staticParseFns(c), "NUM") }},
 			{Name: "DEF", Doc: "the optional-column readers return the cell of a column that exists, at whatever position it stands (index 0 included), and the default only for an absent column or a blank cell (the summary C10 is built on)", MinInstances: 10, Run: runDefaults},
 			{Name: "SCAN", Doc: "a loop that does something for each element is not left early (no break out of a processing loop)", MinInstances: 1, Run: func(c *Ctx) { runFullScan(c, staticParseFns(c), "SCAN") }},
 			{Name: "A1", Doc: "column table and decoder tables against the GTFS reference", MinInstances: 49, Run: func(c *Ctx) { runColumnTable(c, nil) }},
